@@ -81,7 +81,7 @@ CONTROLS = {
 }
 
 
-def run(modules, timeout=900, tier="thorough"):
+def run(modules, timeout=3000, tier="thorough"):
     """-> list of {"module", "cfg", "override", "expected", "violated", "ok", "wall_s"}"""
     from . import tlc
     jobs = [(m, row[0], row[1], row[2]) for m in modules for row in CONTROLS.get(m, [])
